@@ -308,9 +308,21 @@ EXTRA_TEXT = {
         "paid from the prepaid GAS, incl. wrong / repeated ids), contracts looking at the ledger's past around the traceability horizon, native "
         "settings of Oracle / Notary / Management / attribute fees and deep storage spines; LONG-CHAIN worlds (4 000+ blocks, quiet stretch) in which "
         "the collecting replicas really remove old blocks and transactions, followed by activity that refers to the removed past.",
+ "C02": " Later additions: worlds in which flushes run CONCURRENTLY with AddBlock (as the node's own persisting goroutine does; every resulting batch is a "
+        "crash point). Extension synccrash (spec/synccrash, harness/c02synccrash): crashes at every atomic batch while state synchronisation COLLECTS - "
+        "headers, trie nodes (shared nodes, reference counts, billet collapse, pool rebuilt by traversal), window blocks, the three stage changes and the "
+        "jump - with flushes placed between deliveries by TLC schedules and second crashes during recovery; SyncCrash.tla judged by NoCorruption / Resumable / "
+        "CrashTransparent (+ Lockstep on traces), eight named deviations refuted; every prefix of the recorded batch sequence of a real sink is reopened, "
+        "continued and compared raw with an uninterrupted synchronisation.",
  "C03": " Later additions: deep storage spines (a key leaving a 40-60 byte key at every half-byte: proofs with one node per nibble) and a probe "
         "preferring the longest key; stateroot.Module driven the way storeBlock drives it in the archival trie mode with computed-but-dropped blocks, "
-        "every stored root judged by TLC (MPTRefTrace read predicates) to give back exactly the content committed at its height.",
+        "every stored root judged by TLC (MPTRefTrace read predicates) to give back exactly the content committed at its height. "
+        "Extension rpc (spec/rpcstate, harness/c03rpc): C03 (and the fee clause of C07) observed through the real rpcsrv.Server handlers and rpcclient: "
+        "getstateroot, getstate, findstates (from / count / limit / truncated / first and last proof), getproof + verifyproof incl. forged proofs, "
+        "getstorage / findstorage and historic forms, invokefunctionhistoric / invokescripthistoric by index, block hash and state root, "
+        "calculatenetworkfee -> sendrawtransaction; RPCState.tla gives every answer as a function of the flat storage per height and TLC recomputes "
+        "each recorded answer; Paging.tla checks the walk law of both paging protocols for all 15 360 (map, prefix, page size, limit) cases, refutes "
+        "five named deviations, and every walk is replayed against the real server.",
  "C04": " Extension events (spec/events, harness/c04events): what core.Blockchain and the mempool deliver to subscribers as a function of the accepted "
         "blocks - documented per-block order, exactly once in chain order, notifications only of HALTed executions, nothing for refused offers (incl. a "
         "late storeBlock failure) or header-only additions, delivered = stored, no loss / duplication for other subscribers when one (un)subscribes "
